@@ -20,6 +20,10 @@
 static int g_topo = 0;
 static int g_pool = 0;
 static int g_nreq = 2;
+static int g_tprov = 0;   /* 1: the providers answer uref_mgr / uclock inside register (synchronously) */
+static int g_cbmode = 0;  /* 1: the uref_mgr callback withdraws and re-issues the uclock request (the way a
+                           * flow-format answer makes a filter re-require its ubuf manager) */
+static bool g_in_requeue;
 
 #define NREQ 3
 static const int req_types[NREQ] = {UREQUEST_UREF_MGR, UREQUEST_UCLOCK, UREQUEST_SINK_LATENCY};
@@ -58,7 +62,7 @@ static struct st *g_cur;
     do {                                                                       \
         if (!(st_)->viol) {                                                    \
             (st_)->viol = true;                                                \
-            snprintf((st_)->vsig, sizeof((st_)->vsig), "topo%d:%s", g_topo, sig_); \
+            snprintf((st_)->vsig, sizeof((st_)->vsig), "topo%d%s:%s", g_topo, g_cbmode ? ":requeue" : "", sig_); \
             snprintf((st_)->vmsg, sizeof((st_)->vmsg), __VA_ARGS__);           \
         }                                                                      \
     } while (0)
@@ -89,6 +93,12 @@ static int head_provide(struct urequest *urequest, va_list args)
     }
     if (st->ncb < 64)
         st->cb[st->ncb++] = (struct cbrec){st->fx.stamp++, r, v, !st->reg[r]};
+    if (g_cbmode == 1 && r == 0 && st->reg[1] && !g_in_requeue && st->p1 != NULL) {
+        g_in_requeue = true;
+        upipe_unregister_request(st->p1, &st->req[1]);
+        upipe_register_request(st->p1, &st->req[1]);
+        g_in_requeue = false;
+    }
     return UBASE_ERR_NONE;
 }
 
@@ -128,6 +138,9 @@ static void *init(void)
     struct px_fix *fx = &st->fx;
     for (int r = 0; r < NREQ; r++)
         urequest_init(&st->req[r], req_types[r], NULL, head_provide, NULL);
+    for (int k = 0; k < 2; k++)
+        fx->sinks[k].sync_provide = g_tprov != 0;
+    g_in_requeue = false;
     switch (g_topo) {
     case 0:
         st->p1 = upipe_void_alloc(upipe_idem_mgr_alloc(), px_probe(fx));
@@ -440,10 +453,14 @@ int main(int argc, char **argv)
             g_pool = atoi(argv[++i]);
         else if (!strcmp(argv[i], "--nreq") && i + 1 < argc)
             g_nreq = atoi(argv[++i]);
+        else if (!strcmp(argv[i], "--tprov") && i + 1 < argc)
+            g_tprov = atoi(argv[++i]);
+        else if (!strcmp(argv[i], "--cb") && i + 1 < argc)
+            g_cbmode = atoi(argv[++i]);
     }
     static struct seqx_spec spec;
     char nm[64];
-    snprintf(nm, sizeof(nm), "c12_request:topo%d:pool%d", g_topo, g_pool);
+    snprintf(nm, sizeof(nm), "c12_request:topo%d:pool%d:tprov%d:cb%d", g_topo, g_pool, g_tprov, g_cbmode);
     spec.name = strdup(nm);
     spec.nops = NOPS;
     spec.init = init;
